@@ -474,6 +474,11 @@ func (dec *decoder) decodeAny(prop j5reflect.Property) error {
 			return newFieldError(keyTokenStr, "multiple keys found in Any")
 		}
 
+		// the content is under "value", as the encoder writes it
+		if keyTokenStr != "value" {
+			return newFieldError(keyTokenStr, "unknown key in Any")
+		}
+
 		var err error
 		valueBytes, err = dec.popValueAsBytes()
 		if err != nil {
